@@ -1,112 +1,144 @@
 ----------------------------- MODULE TraceSlice -----------------------------
 (* Trace validation of the slice-level API (direction B).                    *)
-(* One NDJSON line per public call of dlt-core; the specification decides,   *)
-(* for every line, whether the logged result is a result the reference       *)
-(* semantics (DltCodec, DltFilter) allows.  Non-blocking: a mismatch is put  *)
-(* into the register `bad` and validation goes on.                            *)
+(* One NDJSON line per public call (or per small group of calls) of          *)
+(* dlt-core; the specification decides for every line whether the logged     *)
+(* results stand in the relation the property states.  Each op is ONE        *)
+(* property's relation and nothing more (a check must not fire on code that  *)
+(* keeps its property):                                                      *)
+(*   round      C01  serialise-then-parse with trailing bytes                *)
+(*   parse, enc C02  verdict / bytes = the reference codec                   *)
+(*   nopanic, reser3  C03  outcome alphabet has no panic; results measurable *)
+(*   frame, session   C04  consumption = the frame the length field declares *)
+(*   prefixes   C05  every proper prefix is incomplete, hint bound           *)
+(*   forward, junkparse, recover  C06  storage-header resync                 *)
+(*   filter     C09  filtered parse vs unfiltered parse                      *)
+(*   construct  C13  non-verbose argument construction                       *)
+(*   reser      C15  computed lengths = serialised lengths                   *)
+(*   stable     C16  re-serialisation of parser results is stable            *)
+(*   zstr, ids  C19  fixed-size NUL-terminated fields                        *)
+(* Non-blocking: a mismatch goes into the register `bad`, validation goes on.*)
 EXTENDS SliceSession, Json, IOUtils
 Rec == ndJsonDeserialize(IOEnv.TRACE)
 VARIABLES l, bad
 
-\* ---- the parse verdict with an optional filter
-FilterOf(e) == e.flt
+\* ---------------------------------------------------------------- C02: full agreement with the reference
 Verdict(e) == IF e.flt = None THEN ParseVerdict(e.buf, e.sh)
               ELSE LET F(hdr, ext) == Dropped(e.flt[1], hdr, ext) IN ParseVerdictF(e.buf, e.sh, F)
-VerdictNoFilter(e) == ParseVerdict(e.buf, e.sh)
-SameMsg(d, r) == r.v = "msg" /\ r.consumed = d.consumed /\ r.m = d.m
 ParseOk(e) ==
   LET d == Verdict(e)  r == e.res IN
-  CASE d.v = "msg"      -> SameMsg(d, r)
+  CASE d.v = "msg"      -> r.v = "msg" /\ r.consumed = d.consumed /\ r.m = d.m
     [] d.v = "filtered" -> \/ r.v = "filtered" /\ r.consumed = d.consumed /\ r.n = d.n
-                           \/ r.v = "rej" /\ VerdictNoFilter(e).v = "rej"      \* latitude: malformed payload of a dropped message
+                           \/ r.v = "rej" /\ ParseVerdict(e.buf, e.sh).v = "rej"      \* latitude: malformed payload of a dropped message
     [] d.v = "inc"      -> r.v = "inc"
     [] d.v = "rej"      -> r.v = "rej"
-\* hint of an incomplete report: at least 1 (NonZero by type) and never more than what is missing (C05, C19)
+\* hint of an incomplete report: at least 1 and never more than what is missing (C05, C19)
 HintOk(r, missing) == r.hint = None \/ (r.hint[1] >= 1 /\ r.hint[1] <= missing)
 
-\* ---- C05: all cuts of one complete message.  e.full parses (by the reference) to a message that
-\*      consumes all of it; e.cuts[k+1] is the code's parse result on the first k bytes, k = 0..Len-1;
-\*      e.ccuts[k+1] likewise for dlt_consume_msg (only when sh).
+\* ---------------------------------------------------------------- C01
+RoundOk(e) ==
+  /\ WellFormed(e.m)                                      \* premise: the driver only builds well-formed values
+  /\ \A i \in 1..Len(e.sfx) :
+       LET r == e.res[i] IN r.v = "msg" /\ r.m = e.m /\ r.consumed = Len(e.bytes) /\ r.rest = e.sfx[i]
+
+\* ---------------------------------------------------------------- C03
+NoPanic(e) == e.res.v # "panic"
+Reser3Ok(e) == e.res.v = "ok" /\ \A i \in 1..Len(e.res.avalid) : e.res.avalid[i]
+
+\* ---------------------------------------------------------------- C04
+FrameEventOk(e) == FrameOk(e.buf, e.sh, e.api, e.res)
+SessionOk(e) ==
+  LET n == Len(e.steps) IN
+  /\ n >= 1 /\ e.steps[1].pos = 0
+  /\ \A i \in 1..n : LET s == e.steps[i] IN
+       /\ FrameOk(Rest(e.buf, s.pos), e.sh, e.api, s.res)
+       /\ i < n => (OkClass(s.res.v) /\ e.steps[i + 1].pos = s.pos + s.res.consumed)    \* the driver continues exactly at the remainder
+  /\ (~OkClass(e.steps[n].res.v)) \/ n = 64                                              \* repeated parsing terminates
+
+\* ---------------------------------------------------------------- C05: all cuts of one complete message
 PrefixesOk(e) ==
   LET n == Len(e.full)  d == ParseVerdict(e.full, e.sh) IN
-  /\ d.v = "msg" /\ d.consumed = n                         \* the premise (otherwise the harness is wrong)
+  /\ d.v = "msg" /\ d.consumed = n /\ WellFormed(d.m)       \* premise (otherwise the driver is wrong)
   /\ Len(e.cuts) = n
-  /\ \A k \in 0..(n - 1) :
-       /\ ParseVerdict(Sub(e.full, 1, k), e.sh).v = "inc"          \* model theorem, re-evaluated on this instance
-       /\ e.cuts[k + 1].v = "inc" /\ HintOk(e.cuts[k + 1], n - k)
+  /\ \A c \in 0..(n - 1) : e.cuts[c + 1].v = "inc" /\ HintOk(e.cuts[c + 1], n - c)
   /\ e.sh => /\ Len(e.ccuts) = n
              /\ e.ccuts[1].v = "none"
-             /\ \A k \in 1..(n - 1) : e.ccuts[k + 1].v = "inc" /\ HintOk(e.ccuts[k + 1], n - k)
+             /\ \A c \in 1..(n - 1) : e.ccuts[c + 1].v = "inc" /\ HintOk(e.ccuts[c + 1], n - c)
 
-ConsumeOk(e) == LET d == ConsumeVerdict(e.buf)  r == e.res IN
-                r.v = d.v /\ (d.v = "skipped" => r.consumed = d.consumed)
-SkipOk(e) == LET d == SkipStorage(e.buf)  r == e.res IN r.v = d.v /\ (d.v = "skipped" => r.consumed = d.consumed)
+\* ---------------------------------------------------------------- C06
 ForwardOk(e) == LET d == Forward(e.buf)  r == e.res IN r.v = d.v /\ (d.v = "found" => r.dropped = d.dropped)
-ZStrOk(e) == LET d == ZStr(e.buf, e.size)  r == e.res IN
-             /\ r.v = d.v
-             /\ d.v = "ok" => (r.val = d.val /\ r.consumed = d.consumed)
-             /\ d.v = "inc" => HintOk(r, d.miss)
+PatternFreeBefore(junk, msg) == FindPattern(junk \o msg) = Len(junk) + 1
+JunkParseOk(e) ==     \* a = parse(junk ++ msg ++ sfx), b = parse(msg ++ sfx), both with storage header
+  (PatternFreeBefore(e.junk, e.msg) /\ e.b.v = "msg") =>
+     (e.a.v = "msg" /\ e.a.m = e.b.m /\ e.a.consumed = e.b.consumed + Len(e.junk))
+RecoverOk(e) ==       \* parts: [junk, msg, alone = parse(msg)]; steps: the session over junk1 msg1 junk2 msg2 ... tail
+  LET n == Len(e.parts)
+      premise == /\ \A i \in 1..n : PatternFreeBefore(e.parts[i].junk, e.parts[i].msg) /\ e.parts[i].alone.v = "msg"
+                                    /\ e.parts[i].alone.consumed = Len(e.parts[i].msg)
+                 /\ FindPattern(e.tail) = 0 IN
+  premise => /\ Len(e.steps) = n + 1
+             /\ \A i \in 1..n : e.steps[i].res.v = "msg" /\ e.steps[i].res.m = e.parts[i].alone.m
+                                /\ e.steps[i].res.consumed = Len(e.parts[i].junk) + Len(e.parts[i].msg)
+             /\ e.steps[n + 1].res.v \notin {"msg", "filtered"}
+
+\* ---------------------------------------------------------------- C09: res = parse with filter, res0 = parse without
+FilterOk(e) ==
+  LET r == e.res  r0 == e.res0  cfg == e.flt[1] IN
+  CASE r0.v = "msg" -> IF Dropped(cfg, r0.m.h, r0.m.x)
+                       THEN r.v = "filtered" /\ r.n = r0.m.h.plen /\ r.consumed = r0.consumed
+                       ELSE r.v = "msg" /\ r.m = r0.m /\ r.consumed = r0.consumed
+    [] r0.v = "inc" -> r.v = "inc"
+    [] r0.v = "rej" -> r.v \in {"rej", "filtered"}        \* headers may be enough to drop a message whose payload is malformed
+    [] OTHER -> r.v = r0.v
+
+\* ---------------------------------------------------------------- C13
 ConstructOk(e) == LET d == ConstructArgs(e.types, e.data, e.be)  r == e.res IN
                   CASE d.v = "any" -> r.v \in {"ok", "err"}
                     [] d.v = "err" -> r.v = "err"
                     [] d.v = "ok"  -> r.v = "ok" /\ r.args = d.args
-\* ---- re-serialisation and measuring of a message value (C03, C15, C16)
+
+\* ---------------------------------------------------------------- C15 (arguments of a message value)
 ArgsOf(m) == IF m.p[1] = "v" THEN m.p[2] ELSE <<>>
 ReserOk(e) ==
   LET m == e.m  r == e.res  as == ArgsOf(m) IN
   /\ r.v = "ok"
-  /\ r.bytes = EncMessage(m)
-  /\ r.blen = HdrsLen(r.bytes[IF IsSome(m.sh) THEN 17 ELSE 1]) + m.h.plen
   /\ Len(r.alen) = Len(as) /\ Len(r.avalid) = Len(as)
   /\ \A i \in 1..Len(as) :
-       /\ r.avalid[i] = ArgValid(as[i])
-       /\ r.abe[i] = Len(EncArg(as[i], TRUE)) /\ r.ale[i] = Len(EncArg(as[i], FALSE))
-       /\ ArgWellFormed(as[i]) => r.alen[i] = ArgLen(as[i])
-  /\ e.parsed => \A i \in 1..Len(as) : r.avalid[i]          \* arguments of a parser result pass the validity check
-\* ---- C16: m was returned by the parser; b2 = as_bytes(m); res2 = parse(b2); b3 = as_bytes(res2.m)
+       /\ ~ArgValid(as[i]) => ~r.avalid[i]                         \* bool / float kinds carrying another value kind fail
+       /\ ArgWellFormed(as[i]) => (r.alen[i] = r.abe[i] /\ r.alen[i] = r.ale[i])
+
+\* ---------------------------------------------------------------- C16: m was returned by the parser; b2 = as_bytes(m); res2 = parse(b2); b3 = as_bytes(res2.m)
 StableOk(e) ==
-  /\ e.b2 = EncMessage(e.m)
-  /\ (Len(e.b2) = DeclaredLen(e.b2, e.sh)) =>
+  (Len(e.b2) = DeclaredLen(e.b2, e.sh)) =>
         /\ e.res2.v = "msg" /\ e.res2.m = e.m /\ e.res2.consumed = Len(e.b2)
         /\ e.b3 = e.b2
-\* ---- C01: serialise-then-parse of a well-formed message with a trailing byte string
-RoundOk(e) ==
-  /\ WellFormed(e.m)
-  /\ e.bytes = EncMessage(e.m)
-  /\ \A i \in 1..Len(e.sfx) :
-       LET r == e.res[i] IN r.v = "msg" /\ r.m = e.m /\ r.consumed = Len(e.bytes) /\ r.rest = e.sfx[i]
 
-\* ---- C04 / C06: one session = the list of calls the driver made on the successive remainders
-VerdictMatches(d, r) ==
-  CASE d.v = "msg"      -> r.v = "msg" /\ r.consumed = d.consumed /\ r.plen = d.m.h.plen
-    [] d.v = "filtered" -> r.v = "filtered" /\ r.consumed = d.consumed /\ r.n = d.n
-    [] d.v = "skipped"  -> r.v = "skipped" /\ r.consumed = d.consumed
-    [] OTHER            -> r.v = d.v
-SessionOk(e) ==
-  LET step(acc, s) ==
-        IF ~acc.live THEN [acc EXCEPT !.ok = FALSE]                 \* a call after the session ended
-        ELSE LET st == IF e.api = "parse" THEN StepParse(e.buf, acc.pos, e.sh, e.flt) ELSE StepConsume(e.buf, acc.pos)
-                 latitude == e.api = "parse" /\ st.d.v = "filtered" /\ s.res.v = "rej"
-                               /\ ParseAt(e.buf, acc.pos, e.sh, None).v = "rej" IN
-             IF latitude THEN [acc EXCEPT !.live = FALSE]
-             ELSE [pos |-> st.pos, live |-> st.live,
-                   ok |-> acc.ok /\ s.pos = acc.pos /\ VerdictMatches(st.d, s.res)
-                          /\ (st.live => st.pos > acc.pos /\ st.pos <= Len(e.buf))]      \* Progress
-      fin == FoldLeft(step, [pos |-> 0, live |-> TRUE, ok |-> TRUE], e.steps)
-  IN fin.ok /\ (~fin.live \/ Len(e.steps) = 64)
+\* ---------------------------------------------------------------- C19
+ZStrOk(e) == LET d == ZStr(e.buf, e.size)  r == e.res IN
+             /\ r.v = d.v
+             /\ d.v = "ok" => (r.val = d.val /\ r.consumed = d.consumed)
+             /\ d.v = "inc" => HintOk(r, d.miss)
+IdsOk(e) == LET d == ParseVerdict(e.buf, e.sh)  r == e.res IN
+            d.v = "msg" => /\ r.v = "msg" /\ r.m.h.ecu = d.m.h.ecu
+                           /\ (IsSome(d.m.x) => IsSome(r.m.x) /\ r.m.x[1].ap = d.m.x[1].ap /\ r.m.x[1].ct = d.m.x[1].ct)
+                           /\ (IsSome(d.m.sh) => IsSome(r.m.sh) /\ r.m.sh[1].ecu = d.m.sh[1].ecu)
 
 Matches(e) == CASE e.op = "parse"     -> ParseOk(e)
                 [] e.op = "enc"       -> e.bytes = EncMessage(e.m)
                 [] e.op = "round"     -> RoundOk(e)
+                [] e.op = "nopanic"   -> NoPanic(e)
+                [] e.op = "reser3"    -> Reser3Ok(e)
+                [] e.op = "frame"     -> FrameEventOk(e)
+                [] e.op = "session"   -> SessionOk(e)
                 [] e.op = "prefixes"  -> PrefixesOk(e)
-                [] e.op = "consume"   -> ConsumeOk(e)
-                [] e.op = "skip"      -> SkipOk(e)
                 [] e.op = "forward"   -> ForwardOk(e)
-                [] e.op = "zstr"      -> ZStrOk(e)
+                [] e.op = "junkparse" -> JunkParseOk(e)
+                [] e.op = "recover"   -> RecoverOk(e)
+                [] e.op = "filter"    -> FilterOk(e)
                 [] e.op = "construct" -> ConstructOk(e)
                 [] e.op = "reser"     -> ReserOk(e)
                 [] e.op = "stable"    -> StableOk(e)
-                [] e.op = "session"   -> SessionOk(e)
+                [] e.op = "zstr"      -> ZStrOk(e)
+                [] e.op = "ids"       -> IdsOk(e)
                 [] OTHER              -> FALSE
 Init == l = 1 /\ bad = <<>>
 Next == l <= Len(Rec) /\ l' = l + 1 /\ bad' = IF Matches(Rec[l]) THEN bad ELSE Append(bad, l)
@@ -114,11 +146,10 @@ Spec == Init /\ [][Next]_<<l, bad>>
 \* what the model says for a mismatching line (kept short: class and numbers only)
 ModelSays(e) ==
   CASE e.op = "parse" -> LET d == Verdict(e) IN <<d.v, IF d.v \in {"msg", "filtered"} THEN d.consumed ELSE 0>>
-    [] e.op = "consume" -> LET d == ConsumeVerdict(e.buf) IN <<d.v, IF d.v = "skipped" THEN d.consumed ELSE 0>>
-    [] e.op = "skip" -> <<SkipStorage(e.buf).v, 0>>
     [] e.op = "forward" -> LET d == Forward(e.buf) IN <<d.v, IF d.v = "found" THEN d.dropped ELSE 0>>
     [] e.op = "zstr" -> <<ZStr(e.buf, e.size).v, 0>>
     [] e.op = "construct" -> <<ConstructArgs(e.types, e.data, e.be).v, 0>>
+    [] e.op = "frame" -> <<"frame-end", FrameOf(e.buf, e.sh, e.api).end>>
     [] OTHER -> <<"-", 0>>
 Report == (l = Len(Rec) + 1) => /\ \A i \in 1..Len(bad) : PrintT(<<"MISMATCH", bad[i], Rec[bad[i]].op, ModelSays(Rec[bad[i]])>>)
                                 /\ PrintT(<<"SUMMARY", Len(Rec), Len(bad)>>)
